@@ -8,6 +8,7 @@ import (
 	"sort"
 	"strings"
 	"sync"
+	"sync/atomic"
 	"time"
 
 	"github.com/getlantern/bytemap"
@@ -131,6 +132,7 @@ type mockTable struct {
 	rows   []*tableRow
 	partBy []string
 	label  string
+	iters  *int32 // counts Iterate calls (a partition runs one table scan per statement it is sent)
 }
 
 func coreFields(fs []TField) core.Fields {
@@ -179,6 +181,9 @@ func (t *mockTable) GetPartitionBy() []string     { return t.partBy }
 func (t *mockTable) String() string               { return t.label }
 
 func (t *mockTable) Iterate(ctx context.Context, onFields core.OnFields, onRow core.OnRow) (interface{}, error) {
+	if t.iters != nil {
+		atomic.AddInt32(t.iters, 1)
+	}
 	if err := onFields(t.fields); err != nil {
 		return nil, err
 	}
@@ -234,6 +239,10 @@ func newWorld(d *Data) *world {
 }
 
 func (w *world) getTable(rows []*tableRow, label string) func(string, func(core.Fields) (core.Fields, error)) (planner.Table, error) {
+	return w.getTableCounting(rows, label, nil)
+}
+
+func (w *world) getTableCounting(rows []*tableRow, label string, iters *int32) func(string, func(core.Fields) (core.Fields, error)) (planner.Table, error) {
 	return func(table string, includedFields func(core.Fields) (core.Fields, error)) (planner.Table, error) {
 		if table != "t" {
 			return nil, fmt.Errorf("table %v not found", table)
@@ -242,7 +251,7 @@ func (w *world) getTable(rows []*tableRow, label string) func(string, func(core.
 		if err != nil {
 			return nil, err
 		}
-		return &mockTable{name: table, all: w.data.Fields, fields: included, rows: rows, partBy: w.data.PartBy, label: label}, nil
+		return &mockTable{name: table, all: w.data.Fields, fields: included, rows: rows, partBy: w.data.PartBy, label: label, iters: iters}, nil
 	}
 }
 
@@ -330,6 +339,28 @@ type clusterCall struct {
 	SQL        string `json:"sql"`
 	Unflat     bool   `json:"unflat"`
 	IsSubQuery bool   `json:"is_sub_query"`
+	// the sub-query results the leader ships with the statement: one list per IN-subquery of
+	// the statement's WHERE, in the order of query.WhereSubQueries (nil = none shipped)
+	Results [][]string `json:"sub_query_results"`
+	Shipped bool       `json:"results_shipped"`
+	// table scans each partition ran while answering the call: 1 per statement; more means
+	// the partition planned and ran IN-subqueries itself, against its own rows
+	PartScans []int32 `json:"partition_table_scans"`
+}
+
+func shippedLists(rs [][]interface{}) [][]string {
+	if rs == nil {
+		return nil
+	}
+	out := make([][]string, len(rs))
+	for i, l := range rs {
+		out[i] = []string{}
+		for _, v := range l {
+			out[i] = append(out[i], dimText(v))
+		}
+		sort.Strings(out[i])
+	}
+	return out
 }
 
 // execCluster plans with Opts.QueryCluster set to a function that runs the
@@ -349,7 +380,9 @@ func (w *world) execClusterAs(sqlText string, isSub bool) (out Outcome, calls []
 		opts.IsSubQuery = isSub
 		opts.QueryCluster = func(ctx context.Context, sqlString string, isSubQuery bool, subQueryResults [][]interface{}, unflat bool, onFields core.OnFields, onRow core.OnRow, onFlatRow core.OnFlatRow) (interface{}, error) {
 			mu.Lock()
-			calls = append(calls, clusterCall{SQL: sqlString, Unflat: unflat, IsSubQuery: isSubQuery})
+			callIdx := len(calls)
+			calls = append(calls, clusterCall{SQL: sqlString, Unflat: unflat, IsSubQuery: isSubQuery,
+				Results: shippedLists(subQueryResults), Shipped: subQueryResults != nil})
 			mu.Unlock()
 			var canonical []string
 			stopped := false
@@ -380,7 +413,14 @@ func (w *world) execClusterAs(sqlText string, isSub bool) (out Outcome, calls []
 				}
 			}
 			for i := 0; i < w.data.NumPart && !stopped; i++ {
+				scans := new(int32)
 				popts := w.localOpts(w.parts[i], fmt.Sprintf("partition %d/%d", i, w.data.NumPart))
+				popts.GetTable = w.getTableCounting(w.parts[i], fmt.Sprintf("partition %d/%d", i, w.data.NumPart), scans)
+				defer func() {
+					mu.Lock()
+					calls[callIdx].PartScans = append(calls[callIdx].PartScans, atomic.LoadInt32(scans))
+					mu.Unlock()
+				}()
 				popts.IsSubQuery = isSubQuery
 				popts.SubQueryResults = subQueryResults
 				plan, err := planner.Plan(sqlString, popts)
